@@ -466,6 +466,13 @@ func (s *Session) onPlay(resp *Response, req *Request) (err error) {
 }
 
 func (s *Session) checkPermission(right auth.AccessRight) bool {
+	if s.wsconn != nil && config.Auth() {
+		// websocket：http 升级时只验证了连接路径当时的拉流权限，
+		// 推流、以及之后每次请求的权限仍按最新保存的权限检查
+		user := auth.Get(s.wsconn.Username())
+		return user != nil && user.ValidatePermission(s.path, right)
+	}
+
 	if s.authMode == auth.NoneAuth {
 		return true
 	}
